@@ -1,4 +1,5 @@
 import MosnVerif.Gen.H2Limits
+import MosnVerif.Gen.C08H2Settings
 import MosnVerif.Gen.H2Frame
 import MosnVerif.Gen.Flow
 
@@ -159,19 +160,22 @@ def refOutcome (limit avail : Nat) (f : Frame) : Out :=
 /-! ## settings values and window updates at connection level -/
 
 /-- what a connection answers to one SETTINGS parameter: 0 = accepted, else the code of the connection error.
-server: parseSettingsFrame's test, then Setting.Valid (serverConn.processSetting); client: parseSettingsFrame's test, then
-MClientConn.processSettings' own test (it stores every other value unchecked). -/
+parseSettingsFrame's test first; then, on the side whose ForeachSetting callback calls it first ([c08l9] regenerated:
+Gen/C08H2Settings.serverValidatesFirst / clientValidatesFirst — serverConn.processSetting for MServerConn, the callback of
+MClientConn.processSettings since fix 'SETTINGS values of an upstream are validated'), Setting.Valid; the client's own
+INITIAL_WINDOW_SIZE test comes after it. -/
 def settingCode (server : Bool) (id val : Nat) : Nat :=
+  let validates := if server then C08H2Settings.serverValidatesFirst else C08H2Settings.clientValidatesFirst
   if H2Limits.settingsFrameWindowTooBig (iLen val) (id == H2Limits.settingInitialWindowSize) then H2Limits.errCodeFlowControl
-  else if server then (H2Limits.settingInvalidCode (iLen id) (iLen val)).toNat
-  else if id == H2Limits.settingInitialWindowSize && H2Limits.clientWindowTooBig (iLen val) then H2Limits.errCodeFlowControl
+  else if validates && H2Limits.settingInvalidCode (iLen id) (iLen val) != 0 then (H2Limits.settingInvalidCode (iLen id) (iLen val)).toNat
+  else if !server && id == H2Limits.settingInitialWindowSize && H2Limits.clientWindowTooBig (iLen val) then H2Limits.errCodeFlowControl
   else 0
 
-/-- RFC 7540 §6.5.2 -/
-def refSettingCode (server : Bool) (id val : Nat) : Nat :=
+/-- RFC 7540 §6.5.2 (both endpoints: a value outside its range is a connection error whoever receives it) -/
+def refSettingCode (_server : Bool) (id val : Nat) : Nat :=
   if id = 4 ∧ val > 2147483647 then 3
-  else if server ∧ id = 2 ∧ val ≠ 0 ∧ val ≠ 1 then 1
-  else if server ∧ id = 5 ∧ (val < 16384 ∨ val > 16777215) then 1
+  else if id = 2 ∧ val ≠ 0 ∧ val ≠ 1 then 1
+  else if id = 5 ∧ (val < 16384 ∨ val > 16777215) then 1
   else 0
 
 /-- connection-level WINDOW_UPDATE on send window `w`: (new window, 0 = ok / error code) -/
